@@ -560,6 +560,15 @@ class AsyncSrcPlainNext(AsyncSrc):
             if st.log:
                 CTX.ev("fault", st.sid)
             raise plan.exc  # type: ignore[misc]
+        if st.pos >= len(st.items) and not (st.closed and st.honour_close) and plan.fault_at is None:
+            # ... and it reports its END right there as well: StopAsyncIteration raised by the call, not by awaiting
+            # what the call returned (``async for`` takes both the same way)
+            st.begin()
+            try:
+                st.commit()
+            except _EndType:
+                raise StopAsyncIteration from None
+            raise AssertionError("a drained source handed out an item")
         return AsyncSrc.__anext__(self)
 
 
